@@ -9,6 +9,7 @@ optimiser answered (it is a parameter of the model, assumed only to answer a poi
 that contract on every call)."""
 import json
 import math
+import warnings
 from fractions import Fraction
 
 import numpy as np
@@ -58,7 +59,13 @@ RULE = (
     "on random models with renamings to fresh/pooled/foreign/duplicate names and int/float constants, NaN samples, "
     "interleaved sets incl. degenerate and infeasible boxes, 1-3 fits; ~10% malformed actions: duplicate dataset "
     "name, unknown override key, unequal lengths, unknown parameter) + bookkeeping-only scripts on the library's "
-    "built-in / composite / offset models + unique() lists. Non-trivial: a fit ran to the end with >=2 datasets, an "
+    "built-in / composite / offset models + unique() lists + RECOVERY EXPLORATION (not proof): noise-free data generated "
+    "by 1-2 built-in models (Odijk, Marko-Siggia (in)extensible, eFJC, tWLC; force and distance forms; slow inverted "
+    "forms on thorough only), 1-4 datasets with per-dataset contour / persistence lengths, kT and the four twist "
+    "parameters fixed, start perturbed by <=15% (contour length of force models upwards; for the inextensible "
+    "force model additionally bounded below by the largest distance), optional fixing at the generating value and "
+    "bounds tightened around / placed at the optimum; fit, refit from the optimum, add further data and fit: the "
+    "generating values must come back within rel 1e-4 (2e-2 when a bound sits AT the optimum). Non-trivial: a fit ran to the end with >=2 datasets, an "
     "override or a fixed parameter; or an error path was hit; or >=2 datasets with an override were queried."
 )
 TRUSTED = [
@@ -88,11 +95,19 @@ def optrat(v):
     v = float(v) if not isinstance(v, (int, Fraction)) else v
     if isinstance(v, float) and math.isinf(v):
         return "N"
-    return enc_rat(v)
+    return rat(v)
+
+
+def rat(x):
+    """exact rational of a number; anything else (None, NaN, inf, objects) becomes a token that cannot agree"""
+    try:
+        return enc_rat(x)
+    except Exception:
+        return "bad-" + type(x).__name__ + "-" + "".join(ch for ch in repr(x)[:12] if ch.isalnum())
 
 
 def ratlist(xs):
-    return "[" + ",".join(enc_rat(x) for x in xs) + "]"
+    return "[" + ",".join(rat(x) for x in xs) + "]"
 
 
 def optratlist(xs):
@@ -108,6 +123,17 @@ def boollist(xs):
 BUILTIN = {}
 
 
+_CALLS = []
+COUNTS = {"datasets_checked_against_model_function_calls": 0, "optimiser_calls": 0, "fits_raised_after_write_back": 0}
+
+
+def _rec(x, params):
+    """the toy model functions report what they are called with (x array object, parameter tuple)"""
+    if len(_CALLS) < 100000:
+        _CALLS.append((x, params))
+    return None
+
+
 def make_model(spec):
     """toy polynomial models y = sum_k arg_k x^k (own function objects: the Model class is what is exercised), or a
     built-in model of lumicks.pylake (optionally a sum of several / with an independent offset)"""
@@ -118,7 +144,7 @@ def make_model(spec):
     if spec["kind"] == "poly":
         args = spec["args"]
         sig = ", ".join(args)
-        f = eval(f"lambda x, {sig}: " + " + ".join(f"{a} * x**{k}" for k, a in enumerate(args)), {})
+        f = eval(f"lambda x, {sig}: _rec(x, ({sig},)) or (" + " + ".join(f"{a} * x**{k}" for k, a in enumerate(args)) + ")", {"_rec": _rec})
         jac = None
         if spec.get("jac", True):
             jac = eval(f"lambda x, {sig}: np.vstack([x**k for k in range({len(args)})])", {"np": np})
@@ -165,12 +191,25 @@ class Recorder:
         self.orig = scipy.optimize.least_squares
         rec = self
 
+        rec.depth = 0
+
         def wrapper(fun, x0, *a, **kw):
-            entry = {"x0": [float(v) for v in np.asarray(x0, dtype=float)]}
+            if rec.depth > 0 or rec.calls:
+                # least_squares used INSIDE a model function (numerically inverted models), during the fit or in the
+                # covariance computation after it: only the first outermost call is the fit's optimiser
+                return rec.orig(fun, x0, *a, **kw)
+            rec.depth += 1
+            try:
+                return outer(fun, x0, *a, **kw)
+            finally:
+                rec.depth -= 1
+
+        def outer(fun, x0, *a, **kw):
+            entry = {"x0": [float(v) for v in np.atleast_1d(np.asarray(x0, dtype=float))]}
             b = kw.get("bounds")
             if b is not None:
-                entry["lb"] = [float(v) for v in np.asarray(b[0], dtype=float)]
-                entry["ub"] = [float(v) for v in np.asarray(b[1], dtype=float)]
+                entry["lb"] = [float(v) for v in np.atleast_1d(np.asarray(b[0], dtype=float))]
+                entry["ub"] = [float(v) for v in np.atleast_1d(np.asarray(b[1], dtype=float))]
             rec.calls.append(entry)
             try:
                 r = rec.orig(fun, x0, *a, **kw)
@@ -194,10 +233,20 @@ def observe(fit, models):
     P = fit.params
     items = list(P.items())
     T = "T[" + ",".join(
-        f"{showstr(k)}:{enc_rat(p.value)}:{optrat(p.lower_bound)}:{optrat(p.upper_bound)}:{enc_bool(bool(p.fixed))}" for k, p in items
+        f"{showstr(k)}:{rat(p.value)}:{optrat(p.lower_bound)}:{optrat(p.upper_bound)}:{enc_bool(bool(p.fixed))}" for k, p in items
     ) + "]"
     vals = P.values
     per = []
+    # what the model functions are really called with when the fit evaluates its residual (toy models only)
+    del _CALLS[:]
+    seen = {}
+    try:
+        fit._calculate_residual()
+        for x, params in _CALLS:
+            seen.setdefault(id(x), []).append(list(params))
+    except Exception:
+        seen = None
+    del _CALLS[:]
     for m in models:
         ds = fit[m]
         byidx = {}
@@ -205,6 +254,12 @@ def observe(fit, models):
             v = cond.get_local_params(vals)
             for d in dl:
                 byidx[d.name] = v
+                if seen is not None and id(d.x) in seen:
+                    # the k-th dataset that shares this x array object is the k-th call with it
+                    got = seen[id(d.x)]
+                    COUNTS["datasets_checked_against_model_function_calls"] += 1
+                    if any([Fraction(a) for a in g] != [Fraction(a) for a in v] for g in got):
+                        byidx[d.name] = got[0]  # what the model function received wins (reported as the index route)
         parts = []
         for name, d in ds.data.items():
             a = ratlist(byidx[name]) if name in byidx else "missing"
@@ -290,6 +345,7 @@ def run_script(case):
                 except Exception as e:
                     err = errname(e)
             call = rec.calls[0] if rec.calls else None
+            COUNTS["optimiser_calls"] += len(rec.calls)
             fits.append({"call": call, "err": err})
             if call is None:
                 obs.append("fit:" + (err or "ok-without-optimiser"))
@@ -298,10 +354,14 @@ def run_script(case):
             else:
                 o = f"fit:ok:{ratlist(call['x0'])}:{optratlist(call['lb'])}:{optratlist(call['ub'])}:{ratlist(call['x'])}"
                 if err is not None:
+                    COUNTS["fits_raised_after_write_back"] += 1
                     o += "!post:" + err  # raised after the write-back (standard errors: outside the model)
                 obs.append(o)
         elif a == "query":
-            obs.append(observe(fit, models))
+            try:
+                obs.append(observe(fit, models))
+            except Exception as e:
+                obs.append("query-raised:" + errname(e))
         elif a == "jac":
             try:
                 obs.append(jac_probe(fit, models, act["mi"], act["name"], act["sens"]))
@@ -313,6 +373,7 @@ def run_script(case):
 
 
 def impl(case):
+    warnings.filterwarnings("ignore")  # NumPy/SciPy RuntimeWarnings of degenerate toy fits are not observations
     if case["op"] == "unique":
         from lumicks.pylake.detail.utilities import unique
         from lumicks.pylake.fitting.detail.utilities import unique_idx
@@ -476,6 +537,13 @@ def cond_string(targets):
 
 
 def oracle(case, ia):
+    try:
+        return _oracle(case, ia)
+    except Exception as e:  # an observation the oracle cannot read is not an acceptable answer
+        return f"unreadable: the implementation's observations could not be interpreted ({e!r}): {ia[0][:300]}"
+
+
+def _oracle(case, ia):
     if case["op"] == "unique":
         names = case["names"]
         seen = []
@@ -995,9 +1063,149 @@ def random_builtin(rng):
     return script("random-builtin", models, acts)
 
 
+DIST = ["ewlc_odijk_distance", "ewlc_marko_siggia_distance", "wlc_marko_siggia_distance", "efjc_distance", "twlc_distance"]
+FORCE = ["ewlc_marko_siggia_force", "wlc_marko_siggia_force", "ewlc_odijk_force"]
+SLOW = ["twlc_force", "efjc_force"]
+TWIST = ["C", "g0", "g1", "Fc"]
+
+
+def recover_case(rng, slow_ok=False):
+    """EXPLORATION of the first clause of the property: noise-free data generated by built-in models (1-2 models,
+    1-4 datasets, per-dataset contour lengths / shared persistence length and stiffness, kT and the twist parameters
+    fixed), start perturbed by up to +-15% (contour length of force models upwards only), optional fixing of a
+    subset at the generating value, optional bounds tightened around / placed at the optimum; fit, refit from the
+    optimum, add further noise-free data, fit again: the generating values must come back each time."""
+    import lumicks.pylake as lk
+
+    nm = 1 if rng.chance(0.75) else 2
+    specs, mods, truth = [], [], {}
+    for mi in range(nm):
+        pool = DIST + FORCE + (SLOW if slow_ok and rng.chance(0.3) else [])
+        ctor = rng.choice(pool)
+        name = ["DNA", "prot"][mi]
+        specs.append({"kind": "builtin", "ctor": ctor, "name": name})
+        mods.append(getattr(lk, ctor)(name))
+    truth["kT"] = 4.11
+    acts, sets = [], []
+    free = []
+    nds_total = rng.randint(nm, 4)
+    plan = [mi for mi in range(nm)] + [rng.randint(0, nm - 1) for _ in range(nds_total - nm)]
+    link_lp = nm == 2 and rng.chance(0.3)  # the second model takes its persistence length from the first
+    dsets = []
+    for k, mi in enumerate(plan):
+        m, name = mods[mi], specs[mi]["name"]
+        ov = {}
+        local = {}
+        for n, p in m._params.items():
+            base = n.split("/")[-1]
+            tgt = n
+            if base == "Lc" and (k > 0 and rng.chance(0.6)):
+                tgt = f"{name}/Lc_{k}"
+            elif base == "Lp" and link_lp and mi == 1:
+                tgt = "DNA/Lp"
+            elif base == "Lp" and k > 0 and rng.chance(0.15):
+                tgt = f"{name}/Lp_{k}"
+            if tgt != n:
+                ov[n] = {"n": tgt}
+            if tgt not in truth:
+                if base == "Lp":
+                    truth[tgt] = rng.uniform(30.0, 60.0)
+                elif base == "Lc":
+                    truth[tgt] = rng.uniform(2.0, 20.0)
+                elif base == "St":
+                    truth[tgt] = rng.uniform(800.0, 2000.0)
+                else:
+                    truth[tgt] = float(p.value)
+                if base in ("Lp", "Lc", "St"):
+                    free.append((tgt, base, m.independent != "f"))
+                elif base in TWIST:
+                    sets.append(S(tgt, "fixed", True))
+            local[n] = truth[tgt]
+        dsets.append((k, mi, ov, local))
+
+    def make_add(k, mi, ov, local, dsname):
+        m = mods[mi]
+        f = np.linspace(rng.uniform(0.1, 0.5), rng.uniform(20.0, 40.0), rng.randint(20, 40))
+        if m.independent == "f":
+            x = f
+        else:
+            dm = getattr(lk, specs[mi]["ctor"].replace("_force", "_distance"))(specs[mi]["name"])
+            x = dm(f, local)
+        y = m(x, local)
+        a = {"a": "add", "mi": mi, "name": dsname, "x": [float(v) for v in x], "y": [float(v) for v in y]}
+        if ov:
+            a["ov"] = ov
+        return a
+
+    maxd = {}
+    more_k = rng.randint(0, len(dsets) - 1)
+    more = None
+    for k, mi, ov, local in dsets:
+        a = make_add(k, mi, ov, local, f"d{k}")
+        acts.append(a)
+        extra = [a]
+        if k == more_k:
+            more = make_add(k, mi, ov, local, "more")
+            extra.append(more)
+        if specs[mi]["ctor"] == "wlc_marko_siggia_force":
+            lc = specs[mi]["name"] + "/Lc"
+            tgt = ov.get(lc, {"n": lc})["n"]
+            for e in extra:
+                maxd[tgt] = max(maxd.get(tgt, 0.0), max(e["x"]))
+    nfixed = 0
+    at_optimum = False
+    for tgt, base, is_force in free:
+        tv = truth[tgt]
+        mode = rng.choice(["free", "free", "free", "fixed", "tight", "lb-at-optimum", "ub-at-optimum"])
+        if mode == "fixed" and nfixed < len(free) - 1:
+            nfixed += 1
+            sets += [S(tgt, "value", tv), S(tgt, "fixed", True)]
+            continue
+        pert = rng.uniform(-0.15, 0.15)
+        if base == "Lc" and is_force:
+            pert = abs(pert)
+            if mode == "ub-at-optimum":
+                mode = "free"
+            if tgt in maxd:
+                # inextensible chain: the optimiser must stay on the physical side of the singularity d = Lc
+                # (from a +12% start TRF was seen to jump across it in global fits), so Lc is bounded below by the
+                # largest distance of the datasets that use it
+                floor = maxd[tgt] * (1 + 1e-6)
+                if mode == "tight":
+                    w = rng.uniform(0.2, 0.5)
+                    sets += [S(tgt, "lb", max(tv * (1 - w), floor)), S(tgt, "ub", tv * (1 + w))]
+                    mode = "done"
+                elif mode != "lb-at-optimum":
+                    sets.append(S(tgt, "lb", floor))
+        if mode == "tight":
+            w = rng.uniform(0.2, 0.5)
+            sets += [S(tgt, "lb", tv * (1 - w)), S(tgt, "ub", tv * (1 + w))]
+        elif mode == "lb-at-optimum":
+            pert = abs(pert)
+            at_optimum = True
+            sets.append(S(tgt, "lb", tv))
+        elif mode == "ub-at-optimum":
+            pert = -abs(pert)
+            at_optimum = True
+            sets.append(S(tgt, "ub", tv))
+        sets.append(S(tgt, "value", tv * (1 + pert)))
+    acts += sets
+    # measured on 1200 seeded layouts: worst relative error 1e-6 without, 1e-3 with a bound placed AT the optimum (TRF
+    # stays strictly inside the box and stops on its step tolerance before it reaches the bound)
+    tol = 2e-2 if at_optimum else 1e-4
+    acts += [Q, F, dict(Q, check="recovered", tol=tol), F, dict(Q, check="refit-from-optimum", tol=tol)]
+    acts += [more, Q, F, dict(Q, check="more-data", tol=tol)]
+    return script("recover", specs, acts, truth=truth)
+
+
 def cases(tier, rng):
     quick = tier == "quick"
     yield from corpus_cases()
+    r = rng.fork("c14-recover")
+    for i in range(60 if quick else 1200):
+        c = recover_case(r.fork(i), slow_ok=(not quick and i % 10 == 0))
+        c["subseed"] = i
+        yield c
     yield from small_scope(tier)
     r = rng.fork("c14-random")
     for i in range(900 if quick else 12000):
@@ -1014,3 +1222,76 @@ def cases(tier, rng):
         sub = r.fork(i)
         pool = ["a", "b", "c", "a|b", "", "kT", "M/a"]
         yield {"stream": "random", "op": "unique", "names": [sub.choice(pool) for _ in range(sub.randint(0, 9))], "subseed": i}
+
+
+def extra_coverage(results):
+    import collections
+
+    nmodels = collections.Counter()
+    nds = collections.Counter()
+    target_kinds = collections.Counter()
+    outcomes = collections.Counter()
+    errors = collections.Counter()
+    recover = {"cases": 0, "checked_queries": 0, "worst_rel_error_no_bound_at_optimum": 0.0, "worst_rel_error_bound_at_optimum": 0.0, "ctors": collections.Counter()}
+    clause_ids = collections.Counter()
+    variants_differ = 0
+    for r in results:
+        c = r["case"]
+        if r["clause"]:
+            clause_ids[r["clause"].split(":")[0]] += 1
+        if c["op"] != "script":
+            continue
+        if " || " in r["model"][0]:
+            variants_differ += 1
+        nmodels[len(c["models"])] += 1
+        nds[sum(1 for a in c["actions"] if a["a"] == "add")] += 1
+        for a in c["actions"]:
+            if a["a"] == "add":
+                seen = set()
+                for k, v in a.get("ov", {}).items():
+                    if "c" in v:
+                        target_kinds["constant"] += 1
+                    else:
+                        target_kinds["renamed"] += 1
+                        if v["n"] in seen:
+                            target_kinds["duplicate-within-dataset"] += 1
+                        seen.add(v["n"])
+        obs = r["impl"][0].split(";")
+        for a, o in zip(c["actions"], obs):
+            if a["a"] == "fit":
+                outcomes[":".join(o.split(":")[:2]).split("!")[0]] += 1
+            elif a["a"] in ("add", "set") and not o.endswith(":ok"):
+                errors[o] += 1
+            elif a["a"] == "jac":
+                outcomes["jacobian-probe"] += 1
+        if c.get("truth"):
+            recover["cases"] += 1
+            for m in c["models"]:
+                recover["ctors"][m["ctor"]] += 1
+            for a, o in zip(c["actions"], obs):
+                if a["a"] == "query" and a.get("check"):
+                    try:
+                        T, _ = parse_query(o)
+                    except Exception:
+                        continue
+                    recover["checked_queries"] += 1
+                    key = "worst_rel_error_bound_at_optimum" if a.get("tol", 0) > 1e-3 else "worst_rel_error_no_bound_at_optimum"
+                    for row in T:
+                        if not row[4] and row[0] in c["truth"]:
+                            tv = c["truth"][row[0]]
+                            recover[key] = max(recover[key], abs(float(row[1]) - tv) / abs(tv))
+    recover["ctors"] = dict(recover["ctors"])
+    return {
+        "scripts_by_number_of_models": dict(nmodels),
+        "scripts_by_number_of_datasets": dict(nds),
+        "override_kinds": dict(target_kinds),
+        "fit_outcomes": dict(outcomes),
+        "refused_actions": dict(errors),
+        "oracle_clause_ids_hit": dict(clause_ids),
+        "scripts_where_aligned_defaults_variant_differs": variants_differ,
+        "defaults_variant_the_implementation_followed": dict(VARIANT),
+        "counts": dict(COUNTS),
+        "recovery_exploration": recover,
+        "exhaustive": False,
+        "exhaustive_note": "the small-scope stream enumerates its finite space completely; the random and recovery streams do not; recovery of generating parameters is exploration, not proof",
+    }
